@@ -267,7 +267,7 @@ for _k, (_t, _l) in _R15.items():
     CLAIMED[_k] = (_a + _t, _b + _l, _c)
 
 _R16 = {
- "C10": ("; re-alignment window of AllMatches (FR-hi); obligatory positions unknown to the Go re-alignment (OBL, known finding)", ""),
+ "C10": ("; re-alignment window of AllMatches (FR-hi); obligatory positions handed to the Go re-alignment (OBL)", ""),
 }
 for _k, (_t, _l) in _R16.items():
     _a, _b, _c = CLAIMED[_k]
